@@ -6,15 +6,10 @@ import PPLV.WR.TransOct2ProofsRefine
 The upper bound goes through `generalized_affine_image(var, LESS_OR_EQUAL, ub_expr, den)` (all its branches), the
 lower bound is one `add_octagonal_constraint`.
 
-NOT proved here: the branch through an additional dimension (`lb_expr == ±den*var + b`) and the general case of
-`lb_expr`.  Both run a kernel on the matrix LEFT by an inner call that ends with
-`incremental_strong_closure_assign`: the general case calls `deduce_minus_v_pm_u_bounds` on it with a sum that
-was accumulated over the unary cells of the matrix BEFORE the inner call, the extra-dimension branch approximates
-`ub_expr` over the unary cells after `affine_image(new_var, …)`.  The missing piece is the invariant "the inner
-call leaves the unary cells of the other variables unchanged" (true: after `forget_all_octagonal_constraints(var)`
-only upper-type cells of `var` are finite, so no path through `var` shortens another cell, and strong coherence
-never changes a unary cell) — or, instead, monotonicity of `R.up` together with `HalfFiniteOn` of the
-intermediate matrix.
+The branch through an additional dimension (`lb_expr == ±den*var + b`) and the general case of `lb_expr` are in
+`TransOct2ProofsBndMono.lean`, `TransOct2ProofsBndLe.lean`, `TransOct2ProofsBndMain.lean` (they need a monotone
+rounding resp. `HalfFiniteOn` of the intermediate matrix: both run a kernel on the matrix LEFT by an inner call
+that ends with `incremental_strong_closure_assign`).
 -/
 set_option linter.unusedVariables false
 set_option linter.unusedSimpArgs false
